@@ -122,13 +122,20 @@ class Roles:
                     return vname
         raise CheckBroken("no topic request variant inserts into TopicActor.subscriptions")
 
+    def publish_variant(self):
+        v = self.variant_with_field_type(self.topic_actor, "std::vec::Vec<%s" % self.A.ty("TopicMessage"))
+        if v is None:
+            v = self.variant_with_field_type(self.topic_actor, "std::vec::Vec<std::sync::Arc<%s" % self.A.ty("TopicMessage"))
+        if v is None:
+            raise CheckBroken("no topic request variant carries the published messages")
+        return v
+
     def publish_body(self):
-        """the topic actor body that advances the per-topic message counter"""
-        ctr = self.A.cell("TopicActor", "next_message_id")
-        for bid in self.actor_methods(self.topic_actor):
-            if any(e.kind == "write" and e.touches(ctr) for e in self.prog.effects(bid)):
-                return bid
-        raise CheckBroken("no topic actor method writes TopicActor.next_message_id")
+        """the topic actor's handler of the request that carries the published messages"""
+        ts = self.variant_targets(self.topic_actor, self.publish_variant())
+        if not ts:
+            raise CheckBroken("publish variant has no handler")
+        return ts[0]
 
     # ------------------------------------------------------------------ guards
     def flag_true_blocks(self, bi, cell):
